@@ -131,7 +131,8 @@ def catalog(env, tier):
     elif env == "mmst":
         from jumanji.environments.routing.mmst import generator as G
         add("default-t12", lambda: E.MMST(time_limit=12), 15, time_limit=12, mk=lambda t: E.MMST(time_limit=t))
-        add("n12a2t7", lambda: E.MMST(generator=G.SplitRandomGenerator(num_nodes=12, num_edges=18, max_degree=5, num_agents=2, num_nodes_per_agent=3, max_step=7), time_limit=7), 10, time_limit=7, mk=lambda t: E.MMST(generator=G.SplitRandomGenerator(num_nodes=12, num_edges=18, max_degree=5, num_agents=2, num_nodes_per_agent=3, max_step=7), time_limit=t))
+        # the generator's max_step (route-array length) deliberately differs from the env's time_limit: the limit must come from the constructor argument
+        add("n12a2t7", lambda: E.MMST(generator=G.SplitRandomGenerator(num_nodes=12, num_edges=18, max_degree=5, num_agents=2, num_nodes_per_agent=3, max_step=30), time_limit=7), 10, time_limit=7, mk=lambda t: E.MMST(generator=G.SplitRandomGenerator(num_nodes=12, num_edges=18, max_degree=5, num_agents=2, num_nodes_per_agent=3, max_step=30), time_limit=t))
         add("n12a2t1", lambda: E.MMST(generator=G.SplitRandomGenerator(num_nodes=12, num_edges=18, max_degree=5, num_agents=2, num_nodes_per_agent=3, max_step=1), time_limit=1), 4, time_limit=1, mk=lambda t: E.MMST(generator=G.SplitRandomGenerator(num_nodes=12, num_edges=18, max_degree=5, num_agents=2, num_nodes_per_agent=3, max_step=1), time_limit=t))
     elif env == "multi_cvrp":
         from jumanji.environments.routing.multi_cvrp import generator as G
